@@ -1,7 +1,13 @@
 package apprig
 
 import (
+	"bufio"
 	"bytes"
+	"crypto/sha256"
+	"encoding/hex"
+	"encoding/json"
+	"os"
+	"os/exec"
 	"fmt"
 	"sort"
 	"strings"
@@ -19,11 +25,11 @@ func runMonitors(cfg CheckConfig, res *hx.Result, traces []*Trace) error {
 	switch cfg.Prop {
 	case "C12":
 		return monitorC12(cfg, res, traces)
+	case "C09":
+		return monitorC09(cfg, res, traces)
 	}
 	return nil
 }
-
-func ReplicaMain() {}
 
 func specViolation(cfg CheckConfig, res *hx.Result, key, what string, u *Universe, ops []*Op) {
 	lines := summarize(ops, u)
@@ -264,4 +270,98 @@ func showPM(pm app.Powermap) string {
 		parts = append(parts, fmt.Sprintf("%s:%d", Dec([]byte(k)), pm[app.ValidatorPubkey{Ed25519pubkey: k}]))
 	}
 	return strings.Join(parts, ",")
+}
+
+// ---------------------------------------------------------------- C09
+
+// digest of everything a replica answered for one history: marshalled responses and final state
+func historyDigests(u *Universe, h *History) []string {
+	im := NewImpl(u)
+	out := []string{}
+	for _, op := range h.Ops {
+		r := im.Do(op)
+		sum := sha256.Sum256(append(append([]byte(r.Obs), 0), r.Bytes...))
+		out = append(out, hex.EncodeToString(sum[:8]))
+	}
+	return out
+}
+
+// ReplicaMain is the second replica: a separate OS process fed the same histories on stdin.
+func ReplicaMain() {
+	sc := bufio.NewScanner(os.Stdin)
+	sc.Buffer(make([]byte, 1<<20), 1<<28)
+	w := bufio.NewWriter(os.Stdout)
+	defer w.Flush()
+	for sc.Scan() {
+		var h History
+		if err := json.Unmarshal(sc.Bytes(), &h); err != nil {
+			fmt.Fprintln(w, "bad-history", err)
+			continue
+		}
+		// allocation padding so that memory layout differs from the first replica
+		pad := make([][]byte, 0, 64)
+		for i := 0; i < 64; i++ {
+			pad = append(pad, make([]byte, 1+i*37))
+		}
+		_ = pad
+		fmt.Fprintln(w, strings.Join(historyDigests(NewUniverse(h.N), &h), " "))
+	}
+}
+
+func monitorC09(cfg CheckConfig, res *hx.Result, traces []*Trace) error {
+	repeats := 6
+	if cfg.Tier == "thorough" {
+		repeats = 24
+	}
+	// replica in another OS process with a different runtime configuration
+	self, err := os.Executable()
+	if err != nil {
+		return err
+	}
+	var in bytes.Buffer
+	for _, t := range traces {
+		b, err := json.Marshal(t.H)
+		if err != nil {
+			return err
+		}
+		in.Write(b)
+		in.WriteByte('\n')
+	}
+	cmd := exec.Command(self, "-replica")
+	cmd.Env = append(os.Environ(), "GOMAXPROCS=1", "GOGC=20")
+	cmd.Stdin = &in
+	outb, err := cmd.Output()
+	if err != nil {
+		return fmt.Errorf("replica process: %v", err)
+	}
+	other := strings.Split(strings.TrimSpace(string(outb)), "\n")
+	if len(other) != len(traces) {
+		return fmt.Errorf("replica answered %d histories for %d", len(other), len(traces))
+	}
+	for i, t := range traces {
+		base := historyDigests(t.U, t.H)
+		res.Count("c09:cross-process-comparisons")
+		cmp := func(name string, got []string) bool {
+			for k := range base {
+				if k >= len(got) || got[k] != base[k] {
+					ops := t.H.Ops[:k+1]
+					what := fmt.Sprintf("replicas diverge (%s) at op %d: %s", name, k, ops[k].Line(t.U))
+					specViolation(cfg, res, "replica-divergence", what, t.U, ops)
+					return false
+				}
+			}
+			return true
+		}
+		if !cmp("second OS process, GOMAXPROCS=1 GOGC=20", strings.Fields(other[i])) {
+			return nil
+		}
+		for r := 0; r < repeats; r++ {
+			res.Count("c09:in-process-reruns")
+			if !cmp(fmt.Sprintf("in-process rerun %d", r), historyDigests(NewUniverse(t.H.N), t.H)) {
+				return nil
+			}
+		}
+	}
+	res.Extra["c09_reruns_per_history"] = repeats
+	return nil
 }
